@@ -564,7 +564,7 @@ def _small_rules(repo, L):
                 pat = try_fold(c.args[0], default=None)
                 if isinstance(pat, str) and "IVX" in pat:
                     pats.append((f, c, pat, dotted(c.func)))
-    if len(pats) != 1:
+    if len({(p_[2], p_[3]) for p_ in pats}) != 1:
         raise AnalysisError(f"make_scaffold_name: the chromosome-name tag pattern was not found as one constant regex ({len(pats)} candidates)")
     f, c, pat, how = pats[0]
     import re as _re
